@@ -4,7 +4,8 @@ from irbmc.core import Family, Harness, STRING_MODEL
 
 J = r'chaiscript::json::'
 NOINLINE = [J + r'JSON::json_escape', J + r'JSONParser::\w+\(', J + r'JSON::JSON', J + r'JSON::~JSON', J + r'JSON::operator', J + r'JSON::to_string', r'chaiscript::parse_num<',
-            r'std::runtime_error::runtime_error', r'\bpow\b'] + STRING_MODEL
+            r'std::runtime_error::runtime_error', r'\bpow\b',
+            J + r'JSON::(JSONType|to_bool|to_int|to_float|object_range|array_range)\(', r'chaiscript::Boxed_Value::Boxed_Value<', r'chaiscript::Boxed_Value::Object_Data::get\(\)', r'chaiscript::Boxed_Value::~Boxed_Value'] + STRING_MODEL
 FAM = Family('json', 'json.cpp', noinline=NOINLINE)
 CUT = [J + r'JSON::JSON', J + r'JSON::~JSON', J + r'JSON::operator', r'std::runtime_error::runtime_error', J + r'JSON::to_string']
 SYM = lambda n: core.csym(FAM, '^' + J + r'JSONParser::' + n + r'\(')
@@ -16,6 +17,45 @@ def replay_j1(inp, shape, failed):
     cmd = [core.native_tool('c18_replay'), hx or '-']
     r = core.run(cmd, timeout=60)
     return (True if r.returncode == 1 else False if r.returncode == 0 else None), ' '.join(cmd[1:]) + ' -> ' + r.stdout.strip()
+
+def number_harness(tier):
+    """J3: parse_number - tolerance for every text, exact value for the integer form"""
+    import re
+    rx = '^' + J + r'JSONParser::parse_number\('
+    stubs = [J + r'JSON::JSON', J + r'JSON::~JSON', r'std::runtime_error::runtime_error', r'chaiscript::parse_num<double>', r'\bpow\b', r'std::pow<']
+    g, info = core.translate(FAM, [rx], stubs + STRING_MODEL, tag='J3_probe')
+    ext = [e.split('|')[0].strip() for e in info['ext']]
+    def opt(pat, dflt):
+        m = [e for e in ext if re.search(pat, e)]
+        return ('F_' + core.cname(m[0])) if m else dflt
+    d = dict(PARSE_NUMBER=SYM('parse_number'), JSON_FROM_LONG=opt(r'^_ZN10chaiscript4json4JSONC[12]IlEE', 'unused_json_long'), JSON_FROM_DOUBLE=opt(r'^_ZN10chaiscript4json4JSONC[12]IdEE', 'unused_json_double'),
+             PARSE_NUM_DOUBLE=opt(r'^_ZN10chaiscript9parse_numIdEE', 'unused_parse_num_double'), POW_IL=opt(r'^_ZSt3powIilE', 'unused_pow'))
+    ns = [1, 2, 3, 4] if tier == 'quick' else [1, 2, 3, 4, 5, 6]
+    shapes = [dict(d, N=n, _tag='N=%d' % n, _witness=('witness: integer',) + (('witness: floating',) if n >= 2 else ()) + (('witness: input rejected',) if n >= 3 else ())) for n in ns]        # a stray character is only looked at when something follows it
+    return Harness('J3.parse_number', FAM, [rx], 'c18_number.c', stubs=stubs, shapes=shapes, opts=['--unwind', '18'], timeout=600, mem_gb=10, string_model=True, defines={'STRING_LITERALS_OPAQUE': 1}, inputs=['text', 'off0'],
+                   note='every text of N bytes, every start offset holding a digit or -; integer conversion (parse_num<long>) real; floating conversion and pow are stubs (values declined)')
+
+def from_json_harness():
+    """J5: json_wrap::from_json for scalars - type mapping, and a fresh value per conversion"""
+    import re
+    rx = r'chaiscript::json_wrap::from_json\(chaiscript::json::JSON const&\)'
+    stubs = [J + r'JSON::', r'chaiscript::Boxed_Value::Boxed_Value<', r'Object_Data::get\(\)', r'std::runtime_error::runtime_error', r'std::vector<chaiscript::Boxed_Value.*>::', r'std::map<.*>::', r'std::_Rb_tree<.*>::']
+    cuts = [r'Boxed_Value::~Boxed_Value']
+    g, info = core.translate(FAM, [rx], stubs + STRING_MODEL, tag='J5_probe', cuts=cuts)
+    ext = [e.split('|')[0].strip() for e in info['ext']]
+    def opt(pat, dflt):
+        m = [e for e in ext if re.search(pat, e)]
+        return ('F_' + core.cname(m[0])) if m else dflt
+    d = dict(FROM_JSON=core.csym(FAM, rx), JSON_TYPE=opt(r'4JSON8JSONTypeEv$', 'unused_json_type'), TO_BOOL=opt(r'4JSON7to_boolEv$', 'unused_to_bool'), TO_INT=opt(r'4JSON6to_intEv$', 'unused_to_int'), TO_FLOAT=opt(r'4JSON8to_floatEv$', 'unused_to_float'),
+             TO_STRING=opt(r'4JSON9to_stringB5cxx11Ev$', 'unused_to_string'), BV_UNDEF=opt(r'11Object_Data3getEv$', 'unused_bv_undef'), BV_BOOL=opt(r'11Boxed_ValueC[12]IbvEEOT_b$', 'unused_bv_bool'), BV_LONG=opt(r'11Boxed_ValueC[12]IlvEEOT_b$', 'unused_bv_long'),
+             BV_DOUBLE=opt(r'11Boxed_ValueC[12]IdvEEOT_b$', 'unused_bv_double'), BV_STRING=opt(r'11Boxed_ValueC[12]INSt7__cxx1112basic_stringIcSt11char_traitsIcESaIcEEEvEEOT_b$', 'unused_bv_string'), STRING_LITERALS_OPAQUE=1)
+    NM = {0: 'null', 3: 'string', 4: 'floating', 5: 'integral', 6: 'boolean'}
+    # containers (Object / Array) recurse through from_json and std::map / std::vector growth: not reached by the scalar classes; their callees get no body on purpose
+    allow = [e for e in ext if re.search(r'JSONConstWrapper|11array_rangeEv|12object_rangeEv|Boxed_ValueC[12]IRSt(3map|6vector)|_M_realloc_insert|_M_emplace|St3mapI|St8_Rb_tree|St6vectorIN10chaiscript11Boxed_Value', e)]
+    h = Harness('J5.from_json(scalars: type mapping, a fresh value per conversion)', FAM, [rx], 'c18_from_json.c', stubs=stubs, cuts=cuts, shapes=[dict(d, CLS0=a, CLS1=b, _tag='%s then %s' % (NM[a], NM[b]), _witness=('witness: two conversions',) + (('witness: the same boolean twice',) if (a, b) == (6, 6) else ())) for a, b in ((0, 0), (6, 6), (5, 4), (3, 6), (6, 0), (4, 3), (5, 5), (3, 3))],
+                opts=['--unwind', '6'], timeout=300, mem_gb=6, string_model=True, inputs=['cls', 'bval', 'ival'], note='two conversions of symbolic scalar JSON values (null / boolean / integral / floating / string); JSON accessors are oracles, Boxed_Value constructors recorders',
+                allow_nobody=['F_' + core.cname(e) for e in allow])
+    return h
 
 def harnesses(tier):
     hs = []
@@ -51,8 +91,10 @@ def harnesses(tier):
                       shapes=[dict(d6, N=n, _tag='N=%d' % n, _witness=('witness: input rejected',) + (('witness: input accepted',) if n >= 2 else ())) for n in ([1, 2, 3, 4] if tier == 'quick' else [1, 2, 3, 4, 5, 6])],
                       opts=['--unwind', '8', '--unwindset', 'set_text.0:17,main.0:18,main.1:18,main.2:18,main.3:18,' + JSTR + '.0:18', '--no-array-field-sensitivity'], timeout=300, mem_gb=8, string_model=True, defines={'STRING_LITERALS_OPAQUE': 1}, inputs=['in', 'off', 'depth0'],
                       note='parse_next is a contract stub (consumes >= 1 byte, may throw); JSON member insertion is a recorder'))
+    hs.append(number_harness(tier))
+    hs.append(from_json_harness())
     return hs
 
 ASSUMPTIONS = ['std::string via the SSO-only model (texts <= 15 bytes)', 'JSON value constructors are recorders; runtime_error construction cut; ::isspace is the C locale table',
                'J4: bounded native recursion follows by induction from: parse_next(depth) rejects depth > 512; containers parse elements at depth+1 (J4.parse_array, J4.parse_object)']
-OUTSIDE = ['numbers: floating-point accuracy of parse_num<double>*pow', 'array/object round trip (std::variant of vector / QuickFlatMap of JSON: heap-recursive)', 'json_wrap type mapping']
+OUTSIDE = ['numbers: the VALUE of floating literals and of integers with an exponent (parse_num<double>, pow: floating point, declined); integer overflow beyond 64 bits', 'array/object round trip (std::variant of vector / QuickFlatMap of JSON: heap-recursive)', 'json_wrap: containers (from_json of arrays / objects recurses through std::map / std::vector growth) and to_json_object']
